@@ -881,7 +881,8 @@
 #endif
 
 #ifndef SEXP_MAX_VECTOR_LENGTH
-#define SEXP_MAX_VECTOR_LENGTH (SEXP_MAX_FIXNUM >> 1)
+/* the byte size of a vector of this length must not overflow a word */
+#define SEXP_MAX_VECTOR_LENGTH (SEXP_MAX_FIXNUM >> 3)
 #endif
 
 #ifndef SEXP_DEFAULT_EQUAL_DEPTH
